@@ -338,6 +338,36 @@ def instance(ref, mode, lib):
     return out
 
 
+def true_choice(ref):
+    """a group marked 'choice' whose members are alternatives: two or more segments, each (1, 1).  (The tables of
+    v2.6+ also mark plain sequences - EHC_E01_INVOICE_INFORMATION ... - as 'choice'; those are not alternatives.)"""
+    return ref[0] == 'choice' and len(ref[1]) >= 2 and all(row[3] == 'SEG' and tuple(row[2]) == (1, 1) for row in ref[1])
+
+
+def has_true_choice(ref):
+    return true_choice(ref) or any(row[3] != 'SEG' and row[1] is not None and is_seq(row[1]) and has_true_choice(row[1])
+                                   for row in ref[1])
+
+
+def instance_one_alternative(ref, lib):
+    """the required-only instance in which a choice group holds its first alternative alone (HL7's reading of a choice)"""
+    out = []
+    rows = ref[1][:1] if true_choice(ref) else ref[1]
+    for row in rows:
+        name, cref, (mn, mx), kind = row
+        if mx == 0:
+            continue
+        for _ in range(mn):
+            if kind == 'SEG':
+                out.append(('S', name, cref))
+            else:
+                kids = instance_one_alternative(cref, lib)
+                if not kids:
+                    kids = first_member(cref, lib)
+                out.append(('G', name, cref, kids))
+    return out
+
+
 def first_member(ref, lib):
     for row in ref[1]:
         name, cref, (mn, mx), kind = row
@@ -730,6 +760,10 @@ def message_variants(rng, lib, v, mname, ref, thorough):
     if thorough or rng.random() < 0.4:
         out.append(('conforming-all', lines_of(nodes_all, mname, v), ('valid',), nodes_all))
     out.append(('conforming-plus-z', [lines[0], 'ZXX|a|b'] + lines[1:], ('valid',), nodes))
+    if has_true_choice(ref):
+        alt = instance_one_alternative(ref, lib)
+        if alt and alt[0][1] == 'MSH':
+            out.append(('conforming-choice-one-alternative', lines_of(alt, mname, v), ('valid',), alt))
     # ---- single-point mutations of the required-only instance
     top = [(k, n) for k, n in enumerate(nodes)]
     pos = {}        # index of the first line of every top-level node
@@ -788,7 +822,8 @@ def message_level(run, rng, dist):
             else:
                 good.append(m)
         rng.shuffle(good)
-        for m in good[:per_version]:
+        chosen = good[:per_version] + [m for m in good[per_version:] if has_true_choice(lib.MESSAGES[m])][:2]
+        for m in chosen:
             ref = lib.MESSAGES[m]
             stats['structures'] += 1
             base_ok = True
@@ -1014,6 +1049,37 @@ def profile_level(run, rng, dist):
 # ------------------------------------------------------------------------------------------
 
 
+HASH_PROBE = r'''
+import sys, json
+from hl7apy.parser import parse_message
+from hl7apy.core import Segment
+m = parse_message('MSH|^~\\&|A|B|C|D|20130101101500||ADT^A01^ADT_A01|1|P|2.5\rEVN||20130101\rPID|1||1^^^H^MR||S^N\rPV1|1|I',
+                  find_groups=False)
+for n in ('SPM', 'OBR', 'ORC', 'NTE', 'TQ1', 'SAC'):
+    m.add(Segment(n, version='2.5'))
+m.pid.add_field('PID_3').value = 'a^b^c^d^e^f^g^h^i^j^k^l^m'
+rep = m.validate(return_errors=True)
+print(json.dumps([[str(e) for e in rep.errors], [str(w) for w in rep.warnings]]))
+'''
+
+
+def hash_seed_probe(run):
+    """validate() is deterministic: the same message gives the same report text in every process, whatever the hash seed"""
+    import subprocess
+    from common import REPO
+    outs = []
+    for seed in ('1', '2', '3', '4'):
+        env = dict(os.environ, PYTHONHASHSEED=seed, PYTHONPATH=REPO)
+        r = subprocess.run([sys.executable, '-c', HASH_PROBE], env=env, capture_output=True, text=True, timeout=120)
+        outs.append((seed, r.stdout.strip() if r.returncode == 0 else 'EXIT %d %s' % (r.returncode, r.stderr[-300:])))
+    if len({o for _, o in outs}) != 1:
+        a, b = outs[0], next(x for x in outs if x[1] != outs[0][1])
+        run.fail('report-depends-on-hash-seed', 'validate() reports differently worded errors for the same message in processes '
+                 'started with different hash seeds', level='message', version='2.5', structure='ADT_A01',
+                 seeds=[a[0], b[0]], report_a=a[1][:600], report_b=b[1][:600])
+    return len(outs)
+
+
 def main(argv=None):
     run = Run('C04', argv)
     if run.replay:
@@ -1034,6 +1100,7 @@ def main(argv=None):
     msg_cases, stats = message_level(run, rng, dist)
     run.log('message level: %d cases (%s), %d oracle failures' % (len(msg_cases), stats, len(run.failures)))
     n_profile, prof_cases = profile_level(run, rng, dist)
+    dist['hash_seed_processes'] = hash_seed_probe(run)
     run.log('profile level: %d cases, %d oracle failures' % (n_profile, len(run.failures)))
     # ---- correspondence
     seg_model = seg_cases
